@@ -1,6 +1,8 @@
 import H5V.Lemmas.DomText3
+import H5V.Lemmas.DomClone
 /-!
-One sink call (`Dom.applyV .asCode b`, for either behaviour `b` of `append_before_sibling`) preserves
+One sink call (`Dom.applyV v b`, for either behaviour `v` of the option cloning and `b` of
+`append_before_sibling`) preserves
 `WF`, `Kinds` and — with the stated exceptions — `NoAdjacentText`, for every call within the
 TreeSink contract.
 -/
@@ -92,8 +94,8 @@ theorem appendBasedOnParentNodeV_eq {b : Dom.BeforeSiblingVariant} {d : Dom} {e 
   simp only [bind, Except.bind, get_ok_of hen] at h
   rw [parentOf_of_node hen, ← h]
 
-theorem WF.applyV {b : Dom.BeforeSiblingVariant} {d d' : Dom} {op : SinkOp} {out : Output} (hw : WF d)
-    (hc : d.contractOk op = true) (h : d.applyV .asCode b op = .ok (d', out)) : WF d' := by
+theorem WF.applyV {v : Dom.CloneVariant} {b : Dom.BeforeSiblingVariant} {d d' : Dom} {op : SinkOp} {out : Output} (hw : WF d) (HK : Kinds d)
+    (hc : d.contractOk op = true) (h : d.applyV v b op = .ok (d', out)) : WF d' := by
   cases op with
   | parseError msg =>
     simp [Dom.applyV] at h; obtain ⟨h, _⟩ := h; subst h
@@ -192,14 +194,16 @@ theorem WF.applyV {b : Dom.BeforeSiblingVariant} {d d' : Dom} {op : SinkOp} {out
   | attachDeclarativeShadow _ _ _ => simp [Dom.applyV] at h; obtain ⟨h, _⟩ := h; subst h; exact hw
   | maybeCloneAnOptionIntoSelectedcontent o =>
     simp only [Dom.applyV, bind, Except.bind] at h
-    cases ha : d.maybeCloneOption .asCode o with
+    cases ha : d.maybeCloneOption v o with
     | error e => simp [ha] at h
     | ok d1 =>
       simp [ha] at h; obtain ⟨h, _⟩ := h; subst h
-      rw [maybeCloneOption_asCode_eq ha]; exact hw
+      cases v with
+      | asCode => rw [maybeCloneOption_asCode_eq ha]; exact hw
+      | fixed => exact (maybeCloneOption_fixed_inv hw HK ha).1
 
-theorem Kinds.applyV {b : Dom.BeforeSiblingVariant} {d d' : Dom} {op : SinkOp} {out : Output} (hw : WF d) (hk : Kinds d)
-    (hc : d.contractOk op = true) (h : d.applyV .asCode b op = .ok (d', out)) : Kinds d' := by
+theorem Kinds.applyV {v : Dom.CloneVariant} {b : Dom.BeforeSiblingVariant} {d d' : Dom} {op : SinkOp} {out : Output} (hw : WF d) (hk : Kinds d)
+    (hc : d.contractOk op = true) (h : d.applyV v b op = .ok (d', out)) : Kinds d' := by
   cases op with
   | parseError msg =>
     simp [Dom.applyV] at h; obtain ⟨h, _⟩ := h; subst h
@@ -312,26 +316,29 @@ theorem Kinds.applyV {b : Dom.BeforeSiblingVariant} {d d' : Dom} {op : SinkOp} {
   | attachDeclarativeShadow _ _ _ => simp [Dom.applyV] at h; obtain ⟨h, _⟩ := h; subst h; exact hk
   | maybeCloneAnOptionIntoSelectedcontent o =>
     simp only [Dom.applyV, bind, Except.bind] at h
-    cases ha : d.maybeCloneOption .asCode o with
+    cases ha : d.maybeCloneOption v o with
     | error e => simp [ha] at h
     | ok d1 =>
       simp [ha] at h; obtain ⟨h, _⟩ := h; subst h
-      rw [maybeCloneOption_asCode_eq ha]; exact hk
+      cases v with
+      | asCode => rw [maybeCloneOption_asCode_eq ha]; exact hk
+      | fixed => exact (maybeCloneOption_fixed_inv hw hk ha).2
 
 /-- the calls that cannot take a node out of a child list: everything except `remove_from_parent`,
-`reparent_children`, and `append_before_sibling` / `append_based_on_parent_node` of a node that
-still has a parent -/
+`reparent_children`, `append_before_sibling` / `append_based_on_parent_node` of a node that still
+has a parent, and the option → selectedcontent mirroring -/
 def NeverDetaches (d : Dom) : SinkOp → Prop
   | .removeFromParent _ => False
   | .reparentChildren _ _ => False
   | .appendBeforeSibling _ (.node c) => d.parentOf c = none
   | .appendBasedOnParentNode _ _ (.node c) => d.parentOf c = none
+  | .maybeCloneAnOptionIntoSelectedcontent _ => False  -- replaces a whole child list by deep copies
   | _ => True
 
 /-- every sink call other than `remove_from_parent`, `reparent_children` and the re-insertion of an
 attached node through `append_before_sibling` keeps "no adjacent text siblings" -/
-theorem NoAdjacentText.applyV {b : Dom.BeforeSiblingVariant} {d d' : Dom} {op : SinkOp} {out : Output} (hw : WF d) (hn : NoAdjacentText d)
-    (hc : d.contractOk op = true) (h : d.applyV .asCode b op = .ok (d', out))
+theorem NoAdjacentText.applyV {v : Dom.CloneVariant} {b : Dom.BeforeSiblingVariant} {d d' : Dom} {op : SinkOp} {out : Output} (hw : WF d) (hn : NoAdjacentText d)
+    (hc : d.contractOk op = true) (h : d.applyV v b op = .ok (d', out))
     (hop : NeverDetaches d op) : NoAdjacentText d' := by
   cases op with
   | parseError msg =>
@@ -433,12 +440,6 @@ theorem NoAdjacentText.applyV {b : Dom.BeforeSiblingVariant} {d d' : Dom} {op : 
   | setCurrentLine _ => simp [Dom.applyV] at h; obtain ⟨h, _⟩ := h; subst h; exact hn
   | allowDeclarativeShadowRoots _ => simp [Dom.applyV] at h; obtain ⟨h, _⟩ := h; subst h; exact hn
   | attachDeclarativeShadow _ _ _ => simp [Dom.applyV] at h; obtain ⟨h, _⟩ := h; subst h; exact hn
-  | maybeCloneAnOptionIntoSelectedcontent o =>
-    simp only [Dom.applyV, bind, Except.bind] at h
-    cases ha : d.maybeCloneOption .asCode o with
-    | error e => simp [ha] at h
-    | ok d1 =>
-      simp [ha] at h; obtain ⟨h, _⟩ := h; subst h
-      rw [maybeCloneOption_asCode_eq ha]; exact hn
+  | maybeCloneAnOptionIntoSelectedcontent o => exact hop.elim
 
 end H5V.Lemmas.Dom
